@@ -16,3 +16,24 @@ func verifLemma_C10_zigzag(d int64) {
 func verifLemma_C10_zigzag_onto(v uint64) {
 	verifrt.Assert(ZigzagEncode(ZigzagDecode(v)) == v, "zigzag-onto")
 }
+
+// C10: the hash-map bucket header (ID above the bucket bits, tag, payload
+// length) decodes to what was packed, for every layout the index builder
+// creates: NewUint64MapBuilder(bucketBitsForCount(n), tagBits) with
+// bucketBitsForCount(n) >= 1 and tagBits in {0, 2} (compact/build.go).
+func verifLemma_C10_bucket_header(id uint64, tag Tag, length int, bucketBits int, tagBits int) {
+	verifrt.Assume(bucketBits >= 1 && bucketBits <= 40)
+	verifrt.Assume(tagBits == 0 || tagBits == 2)
+	verifrt.Assume(tag >= 0 && tag < 1<<tagBits)
+	verifrt.Assume(length >= 0)
+	b := NewUint64MapBuilder(bucketBits, tagBits)
+	var buffer [maxUint64MapBucketHeaderLength]byte
+	h := uint64MapBucketHeader{ID: id, Tag: tag, Length: length}
+	n := h.Marshal(buffer[0:], &b.Layout)
+	var g uint64MapBucketHeader
+	m := g.Unmarshal(buffer[0:], b.Layout.BucketForID(id), &b.Layout)
+	verifrt.Assert(m == n, "header-consumes-what-was-written")
+	verifrt.Assert(g.ID == id, "header-id")
+	verifrt.Assert(g.Tag == tag, "header-tag")
+	verifrt.Assert(g.Length == length, "header-length")
+}
